@@ -162,3 +162,51 @@ func noRetainedWriteArg(c *Ctx, p *Prog, rule string) {
 	}
 	_ = fmt.Sprint
 }
+
+// wholeSliceToStream: the stream transports (obfs2, obfs3) encrypt through a cipher.StreamWriter; Write
+// must hand the caller's WHOLE slice to it and report its count — a bounded staging copy silently
+// truncates long writes (io.Copy never notices, a single large Write does).
+func wholeSliceToStream(c *Ctx, p *Prog, rule, fnKey string) {
+	ob := c.Obl(rule, fnKey+"#whole-slice", "every successful return of Write is the result of the stream writer's Write(b) on the caller's slice itself: all of b is encrypted and sent, and the count reported is the writer's")
+	fn := p.Func(fnKey)
+	if fn == nil {
+		ob.Undecide("not found")
+		return
+	}
+	c.Touch(p.FuncKey(fn))
+	var b *ssa.Parameter
+	for _, q := range fn.Params {
+		if isByteSlice(q.Type()) {
+			b = q
+		}
+	}
+	ff := p.Facts(fn)
+	bad := ""
+	n := 0
+	for _, r := range returnsOf(fn) {
+		if ff.ProvablyNonNil(r.Results[1], r.Block(), 0) {
+			continue // a failure return
+		}
+		call, idx := callOf(unspill(r.Results[0]))
+		okW := false
+		if call != nil && idx == 0 {
+			_, m, args := recvOf(call)
+			if m == "Write" && len(args) == 1 && unspill(args[0]) == ssa.Value(b) {
+				okW = true
+			}
+		}
+		if !okW {
+			bad = "the return at " + p.InstrPos(r) + " does not report StreamWriter.Write(b) of the caller's whole slice"
+		} else {
+			n++
+		}
+	}
+	if n == 0 && bad == "" {
+		bad = "no successful return found"
+	}
+	if bad != "" {
+		ob.Violate("%s", bad)
+	} else {
+		ob.HoldNT("return conn.tx.Write(b)")
+	}
+}
